@@ -70,7 +70,24 @@ pub fn compare(what: &str, a_src: &str, b_src: &str, ext: usize, conv: u8) -> Ve
             vbail!(format!("c17.recipe-changed.{w}"), "{what}: {d}\n before {a_src:?}\n after  {b_src:?}");
         }
     }
+    // the metadata-only parse is another reading of the same text: its entries do not change either
+    let (ma, mb) = (meta_image(a_src, ext, conv)?, meta_image(b_src, ext, conv)?);
+    vensure!(
+        ma == mb,
+        "c17.recipe-changed.metadata-only-parse",
+        "{what}: the metadata-only parse gives {ma:?} before and {mb:?} after\n before {a_src:?}\n after  {b_src:?}"
+    );
     Ok(())
+}
+
+/// (validity, entries with blank space normalised) of the metadata-only parse
+fn meta_image(src: &str, ext: usize, conv: u8) -> Result<(bool, Option<Vec<(String, String)>>), Violation> {
+    let res = match guard(|| parser(ext, conv).parse_metadata(src)) {
+        Ok(r) => r,
+        Err(p) => return Err(Violation::new("c17.panic", format!("parse_metadata panicked: {p}; source {src:?}"))),
+    };
+    let entries = res.output().map(|m| m.map.iter().map(|(k, v)| (ws_norm(&serde_json::to_string(k).unwrap_or_default()), ws_norm(&serde_json::to_string(v).unwrap_or_default()))).collect());
+    Ok((res.is_valid(), entries))
 }
 
 /// byte offset where the cooklang part starts (after a front matter printed by the E1 printer)
